@@ -510,7 +510,7 @@ func checkC16(c *an.Ctx) {
 	if f := p.Func("internal/config", "Loader", "Load"); f != nil {
 		loadPipeline(c, "C16.2", f, map[string]bool{"pipeline": true}, false)
 	}
-	if f := p.Func("internal/config", "Loader", "LoadGlobalConfig"); f != nil {
+	if f, _ := globalLoader(p); f != nil {
 		loadPipeline(c, "C16.2", f, map[string]bool{"pipeline": true}, true)
 	}
 
